@@ -1,0 +1,27 @@
+//go:build verif
+
+package router
+
+// Contracts for the verif engine (/verif). Comment-only: no code is compiled
+// from this file with or without the tag.
+
+//@ func (*RouterWorker).Process
+//@ props C19
+//@ nopanic C13
+//@ funcvalue ^w\.sources\[ is TagSource$1
+//@ requires w != nil && sqe != nil
+//@ requires sqe.Submission != nil && sqe.Submission.Router != nil && sqe.Submission.Router.Promise != nil && sqe.Submission.Router.Promise.Tags != nil
+//@ ensures result != nil && result.Id == sqe.Id && result.Error == nil
+//@ ensures result.Completion != nil && result.Completion.Kind == t_aio.Router && result.Completion.Router != nil
+//@ ensures result.Completion.Router.Matched ==> result.Completion.Router.Recv != nil
+
+//@ func TagSource$1
+//@ props C19
+//@ nopanic C13
+//@ requires [captured] config != nil
+//@ requires p != nil && p.Tags != nil
+//@ ensures result1 ==> result0 != nil
+
+//@ func coerce
+//@ props C19
+//@ nopanic C13
